@@ -231,7 +231,7 @@ macro_rules! int_binop {
             type Output = Integer;
             #[verifier::external_body]
             fn $m(self, rhs: $R) -> (r: Integer)
-                ensures ({ let $a = self@; let $b = rhs@; r@ == $body }),
+                ensures ({ let $a = self.as_int(); let $b = rhs.as_int(); r@ == $body }),
             { unimplemented!() }
         }
         }
@@ -243,6 +243,8 @@ macro_rules! int_binop_all {
         int_binop!($tr, $m, $sp, $obeys, $req, $spec, Integer, &Integer, |$a, $b| $body);
         int_binop!($tr, $m, $sp, $obeys, $req, $spec, &Integer, Integer, |$a, $b| $body);
         int_binop!($tr, $m, $sp, $obeys, $req, $spec, &Integer, &Integer, |$a, $b| $body);
+        int_binop!($tr, $m, $sp, $obeys, $req, $spec, Integer, i32, |$a, $b| $body);
+        int_binop!($tr, $m, $sp, $obeys, $req, $spec, &Integer, i32, |$a, $b| $body);
     };
 }
 int_binop_all!(Add, add, AddSpecImpl, obeys_add_spec, add_req, add_spec, |a, b| a + b);
